@@ -97,14 +97,16 @@ def decodeInt : Bytes → Nat → Res (Int × Nat × Bytes)
 
 /-! ### decode_string -/
 
-/-- state Character: `n` = characters_to_read; `position + characters_to_read` is a `checked_add`
-    (so a sum beyond usize is an error, not a wrap), and the loop head needs one more byte to exist. -/
+/-- state Character: `n` = characters_to_read (already known to fit a `usize`). The Rust test is
+    `position.checked_add(n)` failing, or the sum exceeding `bytes.len()`; since `position ≤ bytes.len() ≤ usize::MAX`
+    for every slice that exists, both amount to `n > bytes.len() - position`, which is what is modelled
+    (the pre-repair code used an unchecked `+` here, which panicked/wrapped for n near 2^64: defect D4a).
+    The loop head needs one more byte to exist before this state is entered. -/
 def strChars (n : Nat) (inp : Bytes) (pos : Nat) : Res (Bytes × Nat × Bytes) :=
   match inp with
   | [] => .err                                                -- bytes.get(position) = None
   | _ :: _ =>
-    if pos + n > usizeMax then .err                           -- checked_add fails
-    else if n > inp.length then .err                          -- position + n > bytes.len()
+    if n > inp.length then .err                               -- position + n > bytes.len()
     else .ok (inp.take n, pos + n, inp.drop n)
 
 /-- state DigitOrSeperator -/
